@@ -37,27 +37,46 @@ def viewFor (start : Nat) : ForRes → Ctl State
   | .exhausted items => .cont ⟨items, start⟩
 
 theorem forEnum_eq (s d : Str) (m : Nat) (e : Char) (tr : Bool) (hd : d ≠ []) (start : Nat) :
-    ∀ (snap : List Str) (i : Nat) (items : List Str),
+    ∀ (snap : List Str) (i : Nat) (items : List Str), (snap.length = 0 ∨ start + i + snap.length ≤ items.length) →
       forEnum (forBody s d m e tr) snap i ⟨items, start⟩ = (forScan ⟨e, d, tr, m⟩ start snap i items).map (viewFor start) := by
   intro snap
   induction snap with
-  | nil => intro i items; simp [forEnum, forScan, Except.map, viewFor]
+  | nil => intro i items _; simp [forEnum, forScan, Except.map, viewFor]
   | cons item snap ih =>
-    intro i items
+    intro i items hlen
+    have hlt : start + i < items.length := by simp at hlen; omega
+    have ih' : ∀ items' : List Str, items'.length = items.length →
+        forEnum (forBody s d m e tr) snap (i + 1) ⟨items', start⟩
+          = (forScan ⟨e, d, tr, m⟩ start snap (i + 1) items').map (viewFor start) :=
+      fun items' h => ih (i + 1) items' (Or.inr (by simp at hlen; omega))
     rw [forEnum, forScan]
     by_cases h1 : item.getLast? = some e
     · have h1' : endsWithCh item e = true := (endsWithCh_iff _ _).2 h1
       by_cases hodd : run e item % 2 = 1
       · have hodd' : (run e item % 2 != 0) = true := by simp [hodd]
         by_cases hm : m = 0 <;> by_cases hdbl : run e item / 2 = 0 <;> cases tr <;>
-          simp [forBody, h1', h1, run_eq, hodd, hm, hdbl, resplit, getLastE, popE, pySplitE_one, hd, sliceTo_neg_one,
+          simp [forBody, h1', h1, run_eq, hodd, hm, hdbl, resplit, getLastE, popE, setIdxE, hlt, pySplitE_one, hd, sliceTo_neg_one,
             sliceTo_neg_div, Except.map, viewFor] <;>
           (try grind)
+        -- the remaining case (trimmed, re-split, glued): by hand
+        generalize items.set (start + i) _ = L
+        cases hgl : L.getLast? with
+        | none => simp
+        | some last =>
+          simp only []
+          generalize L.dropLast ++ splitAux d (some 1) 0 last = L2
+          cases hnx : L2[start + i + 1]? with
+          | none => simp
+          | some nxt =>
+            have hl : start + i < (L2.eraseIdx (start + i + 1)).length := by
+              have := (List.getElem?_eq_some_iff.1 hnx).1
+              rw [List.length_eraseIdx]; split <;> omega
+            simp [hl]
       · have hodd' : (run e item % 2 != 0) = false := by simp; omega
         by_cases hdbl : run e item / 2 = 0 <;> cases tr <;>
-          simp [forBody, h1', h1, run_eq, hodd, hodd', hdbl, ih, sliceTo_neg_div]
+          simp [forBody, h1', h1, run_eq, hodd, hodd', hdbl, ih', setIdxE, hlt, sliceTo_neg_div]
     · have h1' : endsWithCh item e = false := by simpa [endsWithCh] using h1
-      simp [forBody, h1', h1, ih]
+      simp [forBody, h1', h1, ih']
 
 /-- the translated `else` block of the `for` is `Esc.finalTrim` (it always ends with the `break` that leaves the `while`) -/
 theorem forElse_eq (s d : Str) (m : Nat) (e : Char) (tr : Bool) (items : List Str) (start : Nat) :
@@ -88,7 +107,9 @@ theorem whileTrue_eq (s d : Str) (m : Nat) (e : Char) (tr : Bool) (hd : d ≠ []
   | succ k ih =>
     intro items start
     rw [whileTrue, whileLoop]
-    simp only [round, sliceFromToLast, forEnum_eq s d m e tr hd]
+    rw [round]
+    simp only [sliceFromToLast]
+    rw [forEnum_eq s d m e tr hd start _ 0 items (by simp; omega)]
     cases forScan ⟨e, d, tr, m⟩ start (items.dropLast.drop start) 0 items with
     | error err => simp [Except.map]
     | ok r =>
